@@ -37,6 +37,11 @@ var c01Sinks = []c01Sink{
 	{"attr-interp", func(pre, post string) string { return `<p title="` + pre + `{{ x }}` + post + `">t</p>` }, true},
 	// the SAME placeholder several times in one text run / one attribute value (each occurrence is the value, written once more)
 	{"text-repeated", func(pre, post string) string { return "<p>" + pre + "{{ x }}" + post + "</p><q>{{ x }} wrote: {{ x }} ({{ x }})</q>" }, false},
+	// a text sink that is NOT the first text of its element after evaluation: it stands in an unwrapped <template v-if> / <template v-for>
+	// behind static text, so the element ends up with a RUN of text nodes
+	{"text-in-template-run", func(pre, post string) string {
+		return "<p>" + pre + `<template v-if="t">{{ x }}</template>` + post + `</p><q>Hello, <template v-if="t">{{ x }}</template></q><s>go <template v-for="y in items">{{ y }} </template>end</s>`
+	}, false},
 	{"attr-repeated", func(pre, post string) string {
 		return `<p title="` + pre + `{{ x }}` + post + `">t</p><a class="btn-{{ x }} icon-{{ x }}" data-k="{{ kk }}-{{ kk }}">l</a>`
 	}, true},
